@@ -301,6 +301,7 @@ StrV(x) == IF x.t = "str" THEN x.v ELSE ReprV(x)
 
 ConvOp(x, conv) ==          \* !s !r !a of an f-string field
     IF conv = "" THEN x
+    ELSE IF conv = "s" /\ x.t = "str" THEN x
     ELSE IF ~ReprOk(x) THEN Undef
     ELSE IF conv = "s" THEN SeqRes("str", StrV(x))
     ELSE SeqRes("str", ReprV(x))                     \* r, a (ASCII only)
@@ -320,7 +321,7 @@ Pad(txt, al, w) ==
 (* format(x, spec) for spec = [<>^][width]; the empty spec is str(x) *)
 FormatOp(x, spec) ==
     IF Opaque(x) THEN Undef
-    ELSE IF Len(spec) = 0 THEN (IF ReprOk(x) THEN SeqRes("str", StrV(x)) ELSE Undef)
+    ELSE IF Len(spec) = 0 THEN (IF x.t = "str" THEN x ELSE IF ReprOk(x) THEN SeqRes("str", StrV(x)) ELSE Undef)
     ELSE LET hasAlign == spec[1] \in {"<", ">", "^"}
              rest == IF hasAlign THEN Tail(spec) ELSE spec
              okW  == /\ \A i \in 1 .. Len(rest) : IsDigit(rest[i])
